@@ -131,7 +131,7 @@ def d1_asarray(ctx, a_regen):
                    f'asarray-readme-after::{what}',
                    f'asarray: README regeneration follows `{norm(node)[:40]}` ({what}) on every normal path',
                    detail='a state change is not followed by README regeneration')
-    ctx.floor('C08 asarray state-change sites', n, 3)
+    ctx.floor('C08 asarray state-change sites', n, 2)
     # regenerated through a freshly opened handle
     for r in regens:
         recv = r.func.value if isinstance(r.func, ast.Attribute) else None
